@@ -236,6 +236,8 @@ def _check_day(out, dt, ymd, dt2str, y, m, d):
         if y <= NS_LAST_YEAR:
             same('np.datetime64[ns]', "dt(np.datetime64(%r, 'ns'))" % (t,), t, dt, np.datetime64(t, 'ns'))
         same('y,m,d,H,M,S', 'dt(%d, %d, %d, %d, %d, %d)' % (y, m, d, H, M, S), tsec, dt, y, m, d, H, M, S)
+        same('y,m,d,H,M', 'dt(%d, %d, %d, %d, %d)' % (y, m, d, H, M), DATETIME(y, m, d, H, M), dt, y, m, d, H, M)          # fewer parts: the missing ones are 0
+        same('y,m,d,H', 'dt(%d, %d, %d, %d)' % (y, m, d, H), DATETIME(y, m, d, H), dt, y, m, d, H)
         hms = '%02d:%02d:%02d' % (H, M, S)
         s_sec = '%sT%s' % (s_iso, hms)
         s_us = '%sT%s.%06d' % (s_iso, hms, U)
@@ -261,6 +263,22 @@ def _check_day(out, dt, ymd, dt2str, y, m, d):
         s = '%d %s %04d %s' % (d, full, y, hms)
         same('uk:d Month yyyy HH:MM:SS', 'dt(%r)' % s, tsec, dt, s)
         same('us:d Month yyyy HH:MM:SS', "dt(%r, dialect='us')" % s, tsec, dt, s, dialect='us')
+        # several spellings handed over together in ONE list: element by element, whatever stands first and last
+        mixed = [DATETIME(y, m, d, H, M, S, U), s_us, np.datetime64(t, 'us'), pd.Timestamp(t), DATETIME(y, m, d, H, M, S, U)]
+        out = D.out
+        out.sub()
+        try:
+            got = dt(list(mixed))
+            got2 = ymd(list(mixed))
+            out.call(2)
+            if not (isinstance(got, list) and len(got) == len(mixed) and all(isinstance(g, DATETIME) and g == t for g in got)):
+                out.viol('wrong-datetime', 'dt([datetime, %r, np.datetime64, pd.Timestamp, datetime]) [list of spellings]: expected five times %r, observed %r' % (s_us, t, got),
+                         spelling='list of spellings', day=D.klass)
+            elif not (isinstance(got2, list) and len(got2) == len(mixed) and all(isinstance(g, DATETIME) and g == t0 for g in got2)):
+                out.viol('wrong-datetime', 'ymd([datetime, %r, np.datetime64, pd.Timestamp, datetime]) [ymd of a list of spellings]: expected five times %r, observed %r' % (s_us, t0, got2),
+                         spelling='ymd(list of spellings)', day=D.klass)
+        except Exception as e:
+            out.viol('raised', 'dt / ymd([datetime, %r, np.datetime64, pd.Timestamp, datetime]) raised %s: %s' % (s_us, type(e).__name__, e), spelling='list of spellings', day=D.klass)
         # ymd drops the time of day
         same('ymd(datetime+time)', 'ymd(%r)' % (t,), t0, ymd, DATETIME(y, m, d, H, M, S, U))
         same('ymd(pd.Timestamp+time)', 'ymd(pd.Timestamp(%r))' % (t,), t0, ymd, pd.Timestamp(t))
